@@ -175,7 +175,9 @@ def check_hardware(p, m, rng, out, ncycles, label):
             data = rng.choice([0, (1 << m) - 1, rng.getrandbits(m), rng.getrandbits(m)])
             script.append([start, valid, data])
             drive(start, valid, data)
-            edge()
+            ctx.set(cd.clk, 1)
+            got_rise = ctx.get(dut.crc)
+            ctx.set(cd.clk, 0)
             if valid:
                 reg = r.feed(r.init if start else reg, data)
                 stats["valid_words"] += 1
@@ -188,8 +190,8 @@ def check_hardware(p, m, rng, out, ncycles, label):
                 stats["idle_cycles"] += 1
             out["evaluations"] += 1
             got = ctx.get(dut.crc)
-            if got != r.out(reg):
-                viol.append(("crc-output-mismatch", dict(cycle=cyc, crc=got, model=r.out(reg), script=script[-12:])))
+            if got != r.out(reg) or got_rise != r.out(reg):
+                viol.append(("crc-output-mismatch", dict(cycle=cyc, crc=got, crc_right_after_edge=got_rise, model=r.out(reg), script=script[-12:])))
                 return
         if not trailer_ok:
             return
